@@ -243,6 +243,11 @@ func (op *metadataLookup) planHistogramFields(e *stmt.CallExpr) {
 		return
 	}
 	fieldMetas := op.executeCtx.Schema.GetAllHistogramFields()
+	if len(fieldMetas) == 0 {
+		// metric has no histogram data: without this the plan has no field and the load stages index an empty field list
+		op.err = fmt.Errorf("%w, field: histogram", constants.ErrFieldNotFound)
+		return
+	}
 	for _, fieldMeta := range fieldMetas {
 		aggregator, exist := op.fields[fieldMeta.ID]
 		if !exist {
